@@ -493,7 +493,11 @@ func (val Node) IsRawNumber() bool {
 }
 
 func (val Node) Number(ctx *Context) json.Number {
-	return json.Number(val.Raw(ctx))
+	s := val.Raw(ctx)
+	if ctx.Options()&(1<<_F_copy_string) != 0 {
+		s = string(rt.Str2Mem(s))
+	}
+	return json.Number(s)
 }
 
 func (val Node) Raw(ctx *Context) string {
@@ -538,7 +542,11 @@ func (val Node) NonstrAsNumber(ctx *Context) (json.Number, bool) {
 	if !ok {
 		return "", false
 	}
-	return json.Number(ctx.Parser.Json[start:end]), true
+	s := ctx.Parser.Json[start:end]
+	if ctx.Options()&(1<<_F_copy_string) != 0 {
+		s = string(rt.Str2Mem(s))
+	}
+	return json.Number(s), true
 }
 
 func (val Node) AsRaw(ctx *Context) string {
